@@ -34,6 +34,7 @@ import (
 var wfFiles = []string{
 	".github/workflows/a.yml",
 	".github/workflows/b.yml",
+	".github/workflows/e.yml",
 	".github/workflows/sub/c.yaml",
 	".github/workflows/sub/deep/d.yml",
 	".github/workflows/z-broken.yml", // not well-formed YAML: one diagnostic, filtered like any other
@@ -65,6 +66,19 @@ jobs:
       - run: echo ${{ github.event.head_commit.message }}
         shell: fish
       - uses: actions/checkout
+`,
+	// several diagnostics at ONE position (the two missing inputs), produced by a rule that runs after
+	// the rules of the other diagnostics of the file: the filtered list keeps their relative order
+	".github/workflows/e.yml": `on: push
+jobs:
+  cache:
+    runs-on: no-such-label
+    steps:
+      - uses: actions/upload-artifact@v4
+        with:
+          nope: 1
+          nope2: 2
+      - uses: actions/cache@v4
 `,
 	".github/workflows/sub/c.yaml": `on: pull_request
 jobs:
@@ -140,6 +154,8 @@ func mkLayout() *layout {
 		hx.Must(os.MkdirAll(filepath.Join(l.root, d), 0o755))
 	}
 	hx.Must(os.MkdirAll(filepath.Join(base, "other", "x"), 0o755))
+	// the same repository reached through a symbolic link that lives outside of it
+	hx.Must(os.Symlink(l.root, filepath.Join(base, "lnk")))
 	for rel, c := range wfContent {
 		hx.Must(os.WriteFile(filepath.Join(l.root, rel), []byte(c), 0o644))
 	}
@@ -226,13 +242,21 @@ func (s *spec) configText() string {
 }
 
 // spell returns the command-line spelling of the file for the cwd.
+// rootOf is the repository root as the spelled path reaches it
+func (l *layout) rootOf(s *spec) string {
+	if strings.HasPrefix(s.Spelling, "link") {
+		return filepath.Join(l.base, "lnk")
+	}
+	return l.root
+}
+
 func (l *layout) spell(s *spec, rel string) string {
-	abs := filepath.Join(l.root, filepath.FromSlash(rel))
+	abs := filepath.Join(l.rootOf(s), filepath.FromSlash(rel))
 	cwd := l.cwd(s.CwdKind)
 	r, err := filepath.Rel(cwd, abs)
 	must(err)
 	switch s.Spelling {
-	case "absolute":
+	case "absolute", "link-abs", "stdin-abs":
 		return abs
 	case "dot":
 		return "./" + r
@@ -260,6 +284,10 @@ func (l *layout) args(s *spec) (files []string, all []string) {
 		all = append(all, "-ignore", p)
 	}
 	all = append(all, s.Extra...)
+	if strings.HasPrefix(s.Spelling, "stdin") {
+		// the content arrives on stdin under the name of the repository file
+		return nil, append(all, "-stdin-filename", l.spell(s, s.Files[0]), "-")
+	}
 	if s.Spelling != "noargs" {
 		for _, f := range s.Files {
 			files = append(files, l.spell(s, f))
@@ -278,7 +306,11 @@ func (l *layout) run(s *spec) (stdout string, status int) {
 	must(os.Chdir(l.cwd(s.CwdKind)))
 	_, args := l.args(s)
 	var out, errb bytes.Buffer
-	cmd := actionlint.Command{Stdin: strings.NewReader(""), Stdout: &out, Stderr: &errb}
+	in := ""
+	if strings.HasPrefix(s.Spelling, "stdin") {
+		in = wfContent[s.Files[0]]
+	}
+	cmd := actionlint.Command{Stdin: strings.NewReader(in), Stdout: &out, Stderr: &errb}
 	status = cmd.Main(args)
 	return out.String(), status
 }
@@ -305,7 +337,7 @@ func (l *layout) parse(s *spec, stdout string) ([]diagT, error) {
 		p = filepath.Clean(p)
 		fi := -1
 		for i, rel := range wfFiles {
-			if p == filepath.Join(l.root, filepath.FromSlash(rel)) {
+			if p == filepath.Join(l.root, filepath.FromSlash(rel)) || p == filepath.Join(l.base, "lnk", filepath.FromSlash(rel)) {
 				fi = i
 			}
 		}
@@ -446,7 +478,7 @@ func (l *layout) evalSpec(s *spec, baseline map[string][]diagT) ([]diagT, int, *
 // the current working directory").  Files are given by absolute path (a
 // relative path could not be read from another process cwd).
 func (l *layout) evalAPI(s *spec, baseline map[string][]diagT) *failure {
-	if s.Mode != 0 || s.Spelling == "noargs" || len(s.Extra) > 0 {
+	if s.Mode != 0 || s.Spelling == "noargs" || len(s.Extra) > 0 || strings.HasPrefix(s.Spelling, "stdin") {
 		return nil
 	}
 	for _, n := range []string{"actionlint.yaml", "actionlint.yml"} {
@@ -531,7 +563,7 @@ func (l *layout) coqCase(s *spec, baseline map[string][]diagT, msgs []string, go
 	var candidates []string
 	if s.Mode == 0 {
 		for _, rel := range filesOf(s) {
-			abs := filepath.Join(l.root, filepath.FromSlash(rel))
+			abs := filepath.Join(l.rootOf(s), filepath.FromSlash(rel))
 			arg := abs // LintRepository hands absolute paths to LintFiles
 			if s.Spelling != "noargs" {
 				arg = l.spell(s, rel)
@@ -580,7 +612,7 @@ func (l *layout) coqCase(s *spec, baseline map[string][]diagT, msgs []string, go
 		obs = append(obs, coqNList([]int{k, d.Line, d.Col, mid(d.Msg)}))
 	}
 	obs = append(obs, coqNList([]int{1000, status}))
-	return fmt.Sprintf("(mkIn %s %s %s %s %s %s %s, %s)", hx.CoqN(s.Mode), hx.CoqStr(cwd), hx.CoqStr(l.root),
+	return fmt.Sprintf("(mkIn %s %s %s %s %s %s %s, %s)", hx.CoqN(s.Mode), hx.CoqStr(cwd), hx.CoqStr(l.rootOf(s)),
 		hx.CoqList(fruns), hx.CoqList(cli), hx.CoqList(paths), hx.CoqList(glob), hx.CoqList(obs))
 }
 
@@ -589,7 +621,7 @@ func (l *layout) coqCase(s *spec, baseline map[string][]diagT, msgs []string, go
 func genSpec(r *hx.Rng) *spec {
 	s := &spec{CwdKind: r.Pick(cwdKinds)}
 	inside := s.CwdKind == "root" || strings.HasPrefix(s.CwdKind, "nested")
-	sp := []string{"relative", "dot", "absolute", "noisy", "noisy-abs"}
+	sp := []string{"relative", "dot", "absolute", "noisy", "noisy-abs", "link", "link-abs", "stdin", "stdin-abs"}
 	if inside {
 		sp = append(sp, "noargs")
 	}
@@ -597,6 +629,9 @@ func genSpec(r *hx.Rng) *spec {
 	if s.Spelling != "noargs" {
 		perm := r.Perm(len(wfFiles))
 		n := 1 + r.Intn(3)
+		if strings.HasPrefix(s.Spelling, "stdin") {
+			n = 1
+		}
 		for i := 0; i < n; i++ {
 			s.Files = append(s.Files, wfFiles[perm[i]])
 		}
